@@ -4,7 +4,7 @@ import AgModel.Proofs.FinalitySafeDec
 /-!
 # C08 — per-node finality tracking and pruning (property theorems)
 
-Model: `AgModel.Finality` (= `src/consensus/pool/finality_tracker.rs` after the D14 `fix:` commit), tied to the
+Model: `AgModel.Finality` (= `src/consensus/pool/finality_tracker.rs` after the D14 and D27 `fix:` commits), tied to the
 real tracker by the correspondence run of `harness/src/bin/c08.rs`; the pool-level half (bounds checks,
 `PoolImpl::prune`) is in `AgModel.PoolTrack` / `Props/C08Pool.lean`.
 
@@ -107,8 +107,15 @@ Definitions (in `Proofs/FinalitySpec.lean`, `Proofs/FinalityRun.lean`; no refere
   all slots reported `implicitly_skipped`, in order of emission;
 * `Safe H` : the safety premise (decidable, `instance : Decidable (Safe G)`): parents have smaller slots, one parent
   per block, one finalized block per slot, no finalized block strictly between a finalized block and its parent,
-  one notarized block per slot and it is the finalized one, no finalization certificate for an implicitly skipped
-  slot.  These are consequences of consensus safety (C01) for the certificate sets a correct node can hold.
+  one notarized block per slot and it agrees with the **directly** finalized one (`Direct`) if there is one, no
+  finalization certificate for an implicitly skipped slot.  These are consequences of consensus safety (C01) for
+  the certificate sets a correct node can hold.
+
+  Until the D27 repair the premise said "… and the notarized block is the `Final` one" (also for a block finalized
+  only through a descendant).  That was forced by two assertions of the code and is *not* a consequence of safety:
+  one equivocating leader (< 20 % of the stake) can give an implicitly finalized block a notarized sibling, see
+  `d27_*` below.  The assertions are gone (`fix:` commit), the premise is weakened, every theorem below is
+  re-proved under the weaker premise.
 -/
 
 /-- Under the safety premise no operation sequence panics (none of the `assert!`s / "consensus safety violation"
@@ -204,6 +211,38 @@ theorem retained_exact {ops : List Op} (sf : Safe ops) {t : Tracker} {evs : List
       cases this; rfl
     · refine ⟨fun hh => ⟨(fun a => by cases a), fun a => absurd a (ok.2.1 hh)⟩, ⟨fun _ => ok.1, fun _ => rfl⟩⟩
 
+/-- **A `Finalized` status means a direct finalization** (fast-finalization certificate, or finalization +
+    notarization certificate) — the status the remaining hash assertions of `mark_notarized` /
+    `handle_implicitly_finalized` compare against. -/
+theorem finalized_status_direct {ops : List Op} (sf : Safe ops) {t : Tracker} {evs : List Event}
+    (h : run init ops = some (t, evs)) (s : Nat) (hw : t.first ≤ s) (hh : Nat)
+    (e : t.status s = some (.finalized hh)) : Direct ops (s, hh) :=
+  slotOK_direct ((runInv_of_run sf h).rel.slot s hw) e
+
+/-- **A notarized sibling does not disturb the answer** (D27).  If the history finalizes `(s, b)` and also contains
+    the notarization certificate of a *different* block `(s, b')` of that slot — whichever arrived first —, the
+    retained status of the slot is `ImplicitlyFinalized(b)`: the finalized block wins, the notarization of the
+    sibling is forgotten, nothing panics (`safe_run_no_panic`), and `(s, b)` is what was reported (`reports_exact`). -/
+theorem notarized_sibling_exact {ops : List Op} (sf : Safe ops) {t : Tracker} {evs : List Event}
+    (h : run init ops = some (t, evs)) (s : Nat) (hw : t.first ≤ s) (b b' : Nat)
+    (hf : Final ops (s, b)) (hn : NotarH ops (s, b')) (hne : b' ≠ b) :
+    t.status s = some (.implFinalized b) := by
+  have ri := runInv_of_run sf h
+  have e := ri.rel.final_complete sf (Sub.refl _) hf hw
+  have ok := ri.rel.slot s hw
+  cases hst : t.status s with
+  | none => rw [hst] at e; cases e
+  | some x =>
+    rw [hst] at e ok
+    cases x with
+    | notarized _ => cases e
+    | finalPending => cases e
+    | implSkipped => cases e
+    | implFinalized hh => cases e; rfl
+    | finalized hh =>
+      cases e
+      exact absurd (congrArg Prod.snd (sf.notar_direct (s, b') (s, b) hn ok rfl)) hne
+
 /-- **The watermark is exactly the end of the decided prefix of the history**: every slot `1 … first` is decided
     by the history ("nothing is discarded before the whole prefix below it is decided") and slot `first + 1` is
     not (the watermark has caught up when the operation returns). -/
@@ -296,6 +335,43 @@ theorem unsafe_history_panics :
     ¬ Safe [.fastFinal (1, 1), .fastFinal (1, 2)] ∧ run init [.fastFinal (1, 1), .fastFinal (1, 2)] = none := by
   constructor <;> decide
 
+/-- The assertions that remain after the D27 repair are the ones safety implies; each is still reachable by an unsafe
+    history (none of these histories is `Safe`, each run panics):
+    two notarization certificates in one slot; a fast-finalization next to a different notarized block (both
+    orders); a notarization certificate completing a *direct* finalization of a sibling of an implicitly finalized
+    block (`Finalized` first, then the walk); a fast-finalization of a different block than the implicitly finalized
+    one; a finalization certificate for an implicitly skipped slot. -/
+theorem unsafe_histories_still_panic :
+    (¬ Safe [.notar (1, 1), .notar (1, 2)] ∧ run init [.notar (1, 1), .notar (1, 2)] = none) ∧
+    (¬ Safe [.notar (1, 1), .fastFinal (1, 2)] ∧ run init [.notar (1, 1), .fastFinal (1, 2)] = none) ∧
+    (¬ Safe [.fastFinal (1, 1), .notar (1, 2)] ∧ run init [.fastFinal (1, 1), .notar (1, 2)] = none) ∧
+    (¬ Safe [.final 2, .notar (2, 5), .parent (3, 3) (2, 2), .fastFinal (3, 3)] ∧
+      run init [.final 2, .notar (2, 5), .parent (3, 3) (2, 2), .fastFinal (3, 3)] = none) ∧
+    (¬ Safe [.parent (3, 3) (2, 2), .fastFinal (3, 3), .fastFinal (2, 5)] ∧
+      run init [.parent (3, 3) (2, 2), .fastFinal (3, 3), .fastFinal (2, 5)] = none) ∧
+    (¬ Safe [.parent (4, 4) (2, 2), .fastFinal (4, 4), .final 3] ∧
+      run init [.parent (4, 4) (2, 2), .fastFinal (4, 4), .final 3] = none) := by
+  refine ⟨⟨by decide, by decide⟩, ⟨by decide, by decide⟩, ⟨by decide, by decide⟩, ⟨by decide, by decide⟩,
+    ⟨by decide, by decide⟩, ⟨by decide, by decide⟩⟩
+
+/-- What the repaired tracker can no longer notice (it would need one more status): slot 2 holds a finalization
+    certificate (`FinalPendingNotar`), `(2,2)` becomes implicitly finalized — the status forgets the certificate —
+    and then the notarization certificate of the sibling `(2,5)` arrives, which makes `(2,5)` *directly* finalized:
+    a genuine safety violation (`¬ Safe`).  The pinned code panicked here; the repaired code ignores the
+    certificate (and reports nothing for `(2,5)`).  Likewise when the sibling's notarization came first, was
+    replaced by `ImplicitlyFinalized(2)`, and the finalization certificate of the slot arrives last (second history).
+    In the arrival orders in which the direct finalization of `(2,5)` completes *before* the ancestor walk reaches
+    slot 2 the violation is still caught (`unsafe_histories_still_panic`, fourth history). -/
+theorem unsafe_history_undetected_after_d27 :
+    let ops : List Op := [.final 2, .parent (3, 3) (2, 2), .fastFinal (3, 3), .notar (2, 5)]
+    let ops' : List Op := [.notar (2, 5), .parent (3, 3) (2, 2), .fastFinal (3, 3), .final 2]
+    ¬ Safe ops ∧ Direct ops (2, 5) ∧ Final ops (2, 2) ∧
+    (run init ops).map (fun r => (r.1.status 2, repF r.2)) = some (some (.implFinalized 2), [(3, 3), (2, 2)]) ∧
+    ¬ Safe ops' ∧
+    (run init ops').map (fun r => (r.1.status 2, repF r.2)) = some (some (.implFinalized 2), [(3, 3), (2, 2)]) := by
+  refine ⟨by decide, by decide, ?_, by decide, by decide, by decide⟩
+  exact .step (c := (3, 3)) (.direct (Or.inl (by decide))) (by decide)
+
 /-- Genesis is the one report that depends on the order of arrival: if the link `(1,1) → genesis` is known before
     `(1,1)` is finalized, genesis is reported as implicitly finalized; if it arrives afterwards the watermark has
     already left slot 0 and the walk stops silently.  Both histories are safe; all other reports agree. -/
@@ -325,11 +401,12 @@ example : summary [.fastFinal (5, 3), .final 1, .parent (5, 3) (2, 2), .parent (
 /-- a conflicting fast-finalization is a "consensus safety violation" panic -/
 example : events [.notar (1, 1), .fastFinal (1, 2)] = none := by decide
 
-/-! ### D14: the pinned snapshot (before the `fix:` commit) -/
+/-! ### D14, D27: the pinned snapshot (before the `fix:` commits) -/
 
+/-- one operation of the pinned snapshot (`Model/Finality.lean`, section "The pinned snapshot") -/
 def stepOld (t : Tracker) : Op → Res
-  | .parent b p => addParent t b p
-  | .fastFinal b => markFastFinalized t b
+  | .parent b p => addParentOld t b p
+  | .fastFinal b => markFastFinalizedOld t b
   | .notar b => markNotarizedOld t b
   | .final s => markFinalizedOld t s
 
@@ -360,6 +437,45 @@ theorem d14_old_loses_ancestor :
         (fun r => (r.2.getLast?, r.1.first)) = some (some {}, 0) ∧
     (run init [.parent (1, 4) (0, 0), .notar (2, 5), .fastFinal (2, 5), .final 2, .parent (2, 5) (1, 4)]).map
         (fun r => (r.2.getLast?, r.1.first)) = some (some ⟨none, [(1, 4), (0, 0)], []⟩, 2) := by
+  decide
+
+/-! ### D27: a notarized sibling of an implicitly finalized block
+
+Protocol scenario (no correct node breaks a rule; one equivocating leader with 10 % of the stake): the leader shows
+`B' = (4,5)` to 60 % of the stake and `B = (4,4)` to 40 %.  `B'` gets a notarization certificate; `notar(B) = 40 %` makes
+safe-to-notar(`B`) hold at the `B'`-voters, their notar-fallback votes give `B` a notar-fallback certificate.  Nobody
+can finalize slot 4.  Both blocks are ready parents; the next leader builds `C = (8,9)` on `B`; `C` is finalized by
+everybody; `B` becomes implicitly finalized.  The finality tracker of a node holding the notarization certificate
+of `B'` receives `mark_notarized(B')`, `add_parent(C, B)`, `mark_fast_finalized(C)` in some order. -/
+
+/-- the sibling's certificate arrives first, … -/
+def d27First : List Op := [.notar (4, 5), .parent (8, 9) (4, 4), .fastFinal (8, 9)]
+/-- … or after the implicit finalization -/
+def d27Late : List Op := [.parent (8, 9) (4, 4), .fastFinal (8, 9), .notar (4, 5)]
+
+/-- Both histories satisfy the (weakened) safety premise, and they did **not** satisfy the old one: its clause
+    `∀ b b', NotarH b → Final b' → b.1 = b'.1 → b = b'` fails for `b = (4,5)`, `b' = (4,4)`. -/
+theorem d27_histories_safe :
+    Safe d27First ∧ Safe d27Late ∧
+    NotarH d27First (4, 5) ∧ Final d27First (4, 4) ∧ ¬ Direct d27First (4, 4) := by
+  refine ⟨by decide, by decide, by decide, ?_, by decide⟩
+  exact .step (c := (8, 9)) (.direct (Or.inl (by decide))) (by decide)
+
+/-- Repaired code: both orders run to the end, report `(8,9)` finalized, `(4,4)` implicitly finalized and slots
+    5, 6, 7 implicitly skipped in the event of `mark_fast_finalized`, nothing for `(4,5)`, and end with slot 4
+    `ImplicitlyFinalized(4)` (instances of `safe_run_no_panic`, `reports_exact`, `notarized_sibling_exact`). -/
+theorem d27_runs_without_panic :
+    events d27First = some [{}, {}, ⟨some (8, 9), [(4, 4)], [5, 6, 7]⟩] ∧
+    events d27Late = some [{}, ⟨some (8, 9), [(4, 4)], [5, 6, 7]⟩, {}] ∧
+    (run init d27First).map (fun r => (r.1.status 4, r.1.highest, r.1.first)) = some (some (.implFinalized 4), 8, 0) ∧
+    (run init d27Late).map (fun r => (r.1.status 4, r.1.highest, r.1.first)) = some (some (.implFinalized 4), 8, 0) := by
+  decide
+
+/-- Pinned code: both orders end in a `"consensus safety violation"` panic — the first in
+    `handle_implicitly_finalized` (called from `mark_fast_finalized`), the second in `mark_notarized`. -/
+theorem d27_old_panics :
+    runOld init d27First = none ∧ (runOld init (d27First.take 2)).isSome = true ∧
+    runOld init d27Late = none ∧ (runOld init (d27Late.take 2)).isSome = true := by
   decide
 
 end AgModel.Finality
